@@ -18,6 +18,8 @@ func validateStubs(ld *Loaded, cfg *Config) (map[string]int, error) {
 	in.pcSet = map[int]bool{}
 	in.extInit = map[*ssa.Package]bool{}
 	in.onceDone = map[string]bool{}
+	in.heldMutex = map[string]bool{}
+	in.lastStore = map[string]int{}
 	in.pcEq = map[int]uint64{}
 	in.pcNe = map[int][]uint64{}
 	in.inputKinds = map[string]string{}
